@@ -24,7 +24,7 @@ from sim.oracle import carry_over, first_diff, hist_arrays, missed_tuple, wellfo
 
 PROPERTY = "C18"
 LEVEL = "fault_enumeration"
-RUNS = {"quick": 40000, "thorough": 1000000}
+RUNS = {"quick": 60000, "thorough": 1000000}
 WALL = {"quick": 240, "thorough": 1500}
 PARTITIONS = [{"name": "default", "env": {}}]
 
@@ -617,6 +617,7 @@ def execute(plan, ctx):
     ctx.state(fam, cfg["prefill"])
     raised_any = False
     grown = False
+    twin_comparable = True
     for step, op in enumerate(plan["ops"]):
         ctx.step = step
         ctx.advance()
@@ -649,7 +650,15 @@ def execute(plan, ctx):
                 cur_ = hist_arrays(node)
                 if not (np.array_equal(np.asarray(cur_[1], dtype=float), np.asarray(before[1], dtype=float), equal_nan=True)):
                     ctx.probe("node_changed_by_fill_of_derived_object(C12)")
-            if ok != ok_t:
+            bins_differ = any(not np.array_equal(np.asarray(x.bins), np.asarray(y.bins))
+                              for x, y in zip(node.binnings, twin.binnings)) if ok != ok_t else False
+            if ok != ok_t and bins_differ:
+                # a refused adaptive fill legitimately left extra empty bins on the node: an operation whose
+                # acceptance depends on the bins (adding a batch-built operand that has grown differently) may then
+                # be accepted on one side and refused on the other - no verdict about physt
+                ctx.probe("twin_divergence_after_refused_growth")
+                twin_comparable = False  # the two histories have legitimately parted: no final comparison either
+            elif ok != ok_t:
                 ctx.violation("C18/usable-after-fault", f"C18/diverges-from-twin/{op['kind']}",
                               f"valid operation {op['kind']} {'succeeded' if ok else 'raised ' + repr(res)} on the node that saw "
                               f"invalid calls but {'succeeded' if ok_t else 'raised ' + repr(res_t)} on its twin ({fam})")
@@ -675,7 +684,7 @@ def execute(plan, ctx):
             raised_any = True
             unchanged_per_interval(ctx, before, before_missed, node, f"invalid:{kind}", fam)
     # twin replica: agree on every interval with content; all other intervals are empty; missed agree
-    if raised_any:
+    if raised_any and twin_comparable:
         a, b = hist_arrays(node), hist_arrays(twin)
         exp_f, exp_e, lost = carry_over(b, a[0])
         if lost:
